@@ -98,7 +98,7 @@ func Pool(words []string) func(g *Gen) string {
 	return func(g *Gen) string { return words[g.R.Intn(len(words))] }
 }
 
-func (g *Gen) allowed(k string) bool { return g.Allowed == nil || g.Allowed(k) }
+func (g *Gen) allowed(k string) bool { return Specs[k].W > 0 && (g.Allowed == nil || g.Allowed(k)) }
 
 func (g *Gen) pick(list []string) string {
 	tot := 0
